@@ -20,6 +20,11 @@ CHECKS = {
     text='Every access path (cell, enclosing rectangle, A:A / 1:1, address list/tuple/generator, sheet-less address, address objects) is an action of the model and every first-evaluation order a path of its state graph; TLC checks RetOK/Coherent on all of them, and the tour executes each transition on the real ExcelCompiler comparing each returned element with evaluate(cell) of a from-scratch compile.',
     note='three observer workbooks (chain, nested ranges, CSE array) x sources; one settable input in quick tier; single-sheet workbooks',
     ref='§3 C05'),
+ 'C20': dict(
+    technique='Text.tla: strings built by Append over a symbol alphabet, TEXT formats built by a grammar automaton, model-checked by TLC for the slicing/search/substitute/trim laws and decimal-exact TEXT; vectors executed on lib/text.py and through formulas',
+    text='TLC checks SplitLaw, RightLaw, MidLaw, ReplaceLaw, FindLaw (first match), SubstLaw (i-th / all), TrimLaw, idempotence, ExactLaw, RenderLaw and the TEXT rounding/shape laws for every text up to the length bound and all n, k in -1..10, every number x format; each state is executed on the real functions (library calls and 19 compiled formulas per sampled row).',
+    note='MID/FIND with start < 1, SUBSTITUTE with empty or self-overlapping old text, TEXT of negative numbers rounding to zero and comma formats with more than 3 forced digits are executed but not judged',
+    ref='§3 C20'),
  'C19': dict(
     technique='TLA+ enumerator machine over exact decimals (Rounding.tla) model-checked by TLC; exported vectors executed on the real functions and formulas',
     text='ROUND/ROUNDUP/ROUNDDOWN/TRUNC/INT/MOD/CEILING*/FLOOR*/EVEN/ODD are defined on integer pairs (k, j); TLC checks bracket, fixed-point, tie, MOD-identity and duality laws on every enumerated state (ties and near-ties generated exactly) and each state is executed on excellib and through compiled formulas.',
@@ -30,11 +35,21 @@ CHECKS = {
     text='TLC checks TrimEquiv (every output evaluation after Trim(I,O) returns Fresh of the untrimmed sheet) over all evaluate/set_value histories before and after the trim for sampled (I,O) choices incl. range inputs and buried inputs; the tour executes every transition on the real ExcelCompiler and compares each output with the untrimmed model under the same assignments, directly and after to_file/from_file (yml, json, pkl), plus the projected state incl. the frozen set.',
     note='outputs are evaluated before the trim (frozen cells need a value); only leaf inputs are assigned after the trim; |I|,|O| <= 2',
     ref='§3 C08'),
+ 'C11': dict(
+    technique='Address.tla (column letters, print/parse, R1C1, rectangle lattice) model-checked by TLC over boundary walks, sheet-name strings and all rectangle pairs/triples of a 3x3 (4x4) grid; every state executed on AddressRange/AddressCell',
+    text='TLC checks ColInverse/ColSucc, coordinate and sheet-name round trips, offset wrap, cell counts, exact intersection, minimal union, commutativity/associativity/idempotence/absorption on the definitions; each visited state is executed on the real address classes in every notation (A1, quoted, $, R1C1 absolute/relative, tuple) and compared.',
+    note='full-column/row abs_coordinate, un-normalised corners, relative R1C1 anchored at a real _Cell and sheet-insensitive `in` are recorded as not judged; 3x3 grid exhaustive, 4x4 in thorough',
+    ref='§3 C11'),
  'C12': dict(
     technique='Validate.tla (the validate_calcs work list over the Engine model with stored results) checked by TLC for every (altered cell, stored value, outputs, tolerance) choice; each behaviour realised as an .xlsx with patched stored results and run through validate_calcs',
     text='TLC checks the report relation (consistent => empty; altered reachable cell named with stored and recomputed value; only dependants reported; unevaluable cells under exceptions) on every behaviour of the implementation-shaped work-list model and exports the final report; the same cases are run on real .xlsx files (openpyxl + patched <v> elements, broken cells through an unknown function or a raising plugin) and the returned dict must satisfy the relation; the model report is compared too (drift).',
     note='1<->TRUE family excluded; tolerance None or 2; workbooks are the 5-8 node engine shapes',
     ref='§3 C12'),
+ 'C17': dict(
+    technique='Calendar.tla: day-successor machine with Excel month lengths plus DATE/EOMONTH/EDATE/clock/YEARFRAC enumerators, model-checked by TLC against independent closed forms; exported month starts / argument vectors executed on the date_time functions',
+    text='TLC walks the 1900 calendar (every serial day in the thorough tier, 2,958,466 states) checking SerialClosedForm, RoundTrip, Fictitious days, ProlepticAfter60, weekday period 7, LastDay, carrying laws of DATE, month-end laws of EOMONTH/EDATE, clock decomposition and YEARFRAC symmetry; the harness expands TLC\'s month starts to days and calls YEAR/MONTH/DAY/WEEKDAY/DATE/EOMONTH/EDATE/HOUR/MINUTE/SECOND/YEARFRAC through wrappers and formulas.',
+    note='YEARFRAC values only judged for symmetry; serials above 2958465 and a few carry corner cases only require no exception; quick tier: every 7th day + all month boundaries',
+    ref='§3 C17'),
  'C18': dict(
     technique='TLA+ odometer machine (Radix.tla) model-checked by TLC; every reachable state exported as a vector and executed on the real functions',
     text='TLC checks the two\'s-complement definitions (successor adds one, regrouping of bits agrees, extremes) on all 1024 binary strings and on 128-step walks across every octal/hex boundary; each visited state is then a test vector for DEC2x/x2DEC/x2y, places 1..10, illegal characters and over-long strings, through library calls and compiled formulas.',
